@@ -28,6 +28,9 @@ type c04Case struct {
 	// one (replay of a single configuration)
 	V  *refcfg.Validity `json:"v,omitempty"`
 	PV *refcfg.Validity `json:"pv,omitempty"`
+	// one: the entity is issued by a root generated before it on a filesystem whose writes take 1.1 s,
+	// so more than a second of wall-clock time lies between reading the configuration and building it
+	Slow bool `json:"slow,omitempty"`
 }
 
 var c04Zones = []string{"UTC", "Europe/Berlin", "America/New_York", "Asia/Kolkata", "Pacific/Kiritimati", "Pacific/Pago_Pago", "Australia/Lord_Howe", "America/Havana"}
@@ -59,6 +62,13 @@ func c04Enumerate(tier string, yield func(any)) {
 		for _, s := range starts {
 			yield(&c04Case{Kind: "dur", Zone: z, Start: s})
 		}
+	}
+	// time passing inside a run: relative periods on a slow filesystem
+	for _, sv := range []struct {
+		v, pv *refcfg.Validity
+		prof  bool
+	}{{&refcfg.Validity{Duration: "1y2m3d"}, nil, false}, {nil, nil, false}, {nil, &refcfg.Validity{Duration: "90d"}, true}, {&refcfg.Validity{Until: "2047-03-04"}, nil, false}} {
+		yield(&c04Case{Kind: "one", Zone: "UTC", V: sv.v, PV: sv.pv, HasProf: sv.prof, Slow: true})
 	}
 	for _, z := range []string{"UTC", "America/New_York"} {
 		for cm := 0; cm < 8; cm++ {
@@ -97,7 +107,7 @@ func c04Exec(x *engine.Ctx, cc any) {
 	time.Local = loc
 	switch c.Kind {
 	case "one":
-		c04One(x, c.Zone, c.V, c.PV, c.HasProf)
+		c04OneSlow(x, c.Zone, c.V, c.PV, c.HasProf, c.Slow)
 	case "year":
 		var n int64
 		for m := 1; m <= 12; m++ {
@@ -146,16 +156,24 @@ func c04Text(v *refcfg.Validity) string {
 }
 
 func c04One(x *engine.Ctx, zone string, v, pv *refcfg.Validity, hasProf bool) {
-	replay := &c04Case{Kind: "one", Zone: zone, V: v, PV: pv, HasProf: hasProf}
+	c04OneSlow(x, zone, v, pv, hasProf, false)
+}
+
+func c04OneSlow(x *engine.Ctx, zone string, v, pv *refcfg.Validity, hasProf, slow bool) {
+	replay := &c04Case{Kind: "one", Zone: zone, V: v, PV: pv, HasProf: hasProf, Slow: slow}
 	cfg := &refcfg.CertCfg{Path: "ent.yaml", Subject: "CN=validity", KeyAlg: "P-224", Validity: v}
 	d := &Dir{Certs: []*refcfg.CertCfg{cfg}}
+	if slow {
+		cfg.Issuer = "aroot"
+		d.Certs = []*refcfg.CertCfg{{Path: "aroot.yaml", Subject: "CN=slow root", KeyAlg: "P-224"}, cfg}
+	}
 	var prof *refcfg.ProfileCfg
 	if hasProf {
 		prof = &refcfg.ProfileCfg{Path: "prof.yaml", Name: "p", Validity: pv}
 		d.Profiles = append(d.Profiles, prof)
 		cfg.Profile = "p"
 	}
-	x.Nontrivial(zone + c04Text(v) + c04Text(pv) + fmt.Sprint(hasProf))
+	x.Nontrivial(zone + c04Text(v) + c04Text(pv) + fmt.Sprint(hasProf, slow))
 	feature := refcfg.ValidityFeature(refcfg.EffectiveValidity(cfg, prof), cfg, prof)
 	// invalid blocks must be rejected by the parser
 	wOwn := refcfg.RefWindow(v, time.Local)
@@ -179,7 +197,16 @@ func c04One(x *engine.Ctx, zone string, v, pv *refcfg.Validity, hasProf bool) {
 		}
 		return
 	}
-	g := Generate(d, func(w *simfs.World) { w.Put("ent.pem", FixtureKeyPEM("P-224-0")) }, drive.Default)
+	g := Generate(d, func(w *simfs.World) {
+		w.Put("ent.pem", FixtureKeyPEM("P-224-0"))
+		if slow {
+			w.Put("aroot.pem", FixtureKeyPEM("P-224-1"))
+			w.WriteDelay = 1100 * time.Millisecond
+		}
+	}, drive.Default)
+	if slow {
+		feature += " slow-filesystem"
+	}
 	if g.Res.Panic != "" {
 		x.ViolationCase("C04/panic/"+g.Res.PanicSite, g.Res.Panic, replay)
 		return
@@ -195,7 +222,11 @@ func c04One(x *engine.Ctx, zone string, v, pv *refcfg.Validity, hasProf bool) {
 	}
 	for _, df := range diffs {
 		if df.Owner == "C04" {
-			x.ViolationCase(df.Class, fmt.Sprintf("zone %s, validity %s, profile %s: %s", zone, c04Text(v), c04Text(pv), df.Detail), replay)
+			cls := df.Class
+			if slow {
+				cls += " slow-filesystem"
+			}
+			x.ViolationCase(cls, fmt.Sprintf("zone %s, validity %s, profile %s: %s", zone, c04Text(v), c04Text(pv), df.Detail), replay)
 		}
 	}
 	_ = a
@@ -223,7 +254,7 @@ func init() {
 	register(&engine.Check{
 		ID:          "C04",
 		Level:       "exploration",
-		Rule:        "every calendar date of the years {1950,1999,2000,2024,2049,2050,2100,2200} (quick) / of every year 1950..2200 in two zones (thorough) as `from` (with duration 1y) and as `until`, in 8 local time zones (UTC, Berlin, New York, Kolkata, Kiritimati +14, Pago Pago -11, Lord Howe 30-minute DST, Havana DST at midnight); duration grid y{-,0,1,5,25,100,010,08} x m{-,0,1,11,12,13,25,09,0012} x d{-,0,1,28,31,365,366,1000,0030,08} (leading zeros are decimal) from 12 month-end / leap-day start dates and from the run time; all 8 x (1+8) presence combinations of from/until/duration in certificate and profile. Each through a whole gopki run with an existing P-224 key; oracle = own proleptic-Gregorian arithmetic for local midnight and calendar addition, UTCTime/GeneralizedTime by year, inheritance rule. non-trivial = distinct (zone, block, profile block)",
+		Rule:        "every calendar date of the years {1950,1999,2000,2024,2049,2050,2100,2200} (quick) / of every year 1950..2200 in two zones (thorough) as `from` (with duration 1y) and as `until`, in 8 local time zones (UTC, Berlin, New York, Kolkata, Kiritimati +14, Pago Pago -11, Lord Howe 30-minute DST, Havana DST at midnight); duration grid y{-,0,1,5,25,100,010,08} x m{-,0,1,11,12,13,25,09,0012} x d{-,0,1,28,31,365,366,1000,0030,08} (leading zeros are decimal) from 12 month-end / leap-day start dates and from the run time; all 8 x (1+8) presence combinations of from/until/duration in certificate and profile. Each through a whole gopki run with an existing P-224 key; oracle = own proleptic-Gregorian arithmetic for local midnight and calendar addition, UTCTime/GeneralizedTime by year, inheritance rule. non-trivial = distinct (zone, block, profile block); and four relative shapes (duration only, nothing, profile duration, until only) for an entity issued after its root on a filesystem whose writes take 1.1 s, so that the reading of the configuration and the building of the certificate fall into different seconds (notAfter must still be notBefore plus the duration exactly)",
 		Bound:       map[string]string{"dates": "quick 8 years x 8 zones; thorough 1950-2200 x 2 zones + 8 years x 6 zones"},
 		Assumptions: []string{"the zone offset tables of Go's embedded tzdata are trusted; in a DST gap/overlap at local midnight either offset is accepted", "without `from`, notBefore must lie within the measured run interval +-1 s", "calendar-invalid dates are only required not to crash (C20)"},
 		Budget:      budgets(quickBudget, thoroughBudget),
